@@ -612,6 +612,60 @@ json.dump(out, open(sys.argv[2], "w"))
 '''
 
 
+INTER_CODE = r'''
+import json, sys, threading
+sys.path.insert(0, sys.argv[4])
+from generator import model
+from harness.probe_plugin import readback
+doc = json.load(open(sys.argv[1]))
+at = int(sys.argv[2])
+paused, resume = threading.Event(), threading.Event()
+out = {}
+count = [0]
+
+def tracer(frame, event, arg):
+    if not frame.f_code.co_filename.endswith("model.py"):
+        return None
+    def local(frame, event, arg):
+        if event == "line":
+            count[0] += 1
+            if count[0] == at:
+                paused.set()
+                resume.wait(20)
+        return local
+    return local
+
+def first():
+    sys.settrace(tracer)
+    try:
+        out["a"] = {"ok": True, "rb": readback(model.create_lsp_model([json.loads(json.dumps(doc))]))}
+    except BaseException as e:
+        out["a"] = {"ok": False, "exc": type(e).__name__}
+    finally:
+        sys.settrace(None)
+        paused.set()
+
+t = threading.Thread(target=first, daemon=True)
+t.start()
+paused.wait(20)
+try:
+    out["b"] = {"ok": True, "rb": readback(model.create_lsp_model([json.loads(json.dumps(doc))]))}
+except BaseException as e:
+    out["b"] = {"ok": False, "exc": type(e).__name__}
+resume.set()
+t.join(30)
+out["lines_seen"] = count[0]
+json.dump(out, open(sys.argv[3], "w"))
+'''
+
+
+def run_interleaved(zoo_path, at, work, tag):
+    outp = os.path.join(work, "inter-%s.json" % tag)
+    env = dict(os.environ, PYTHONPATH=common.REPO)
+    subprocess.run([common.PY, "-c", INTER_CODE, zoo_path, str(at), outp, common.VERIF], cwd=common.REPO, env=env, stdout=subprocess.PIPE, stderr=subprocess.PIPE, timeout=120)
+    return json.load(open(outp)) if os.path.exists(outp) else {"a": {"ok": False, "exc": "NoOutput"}, "b": {"ok": False, "exc": "NoOutput"}}
+
+
 def run_session(files, work, tag):
     lst, outp = os.path.join(work, "sess-%s.json" % tag), os.path.join(work, "sessout-%s.json" % tag)
     json.dump(files, open(lst, "w"))
@@ -632,7 +686,7 @@ def run_eq(a, b, work, tag):
 
 def check(tier):
     rep = common.Reporter("C18", tier, "model_checking")
-    rc, out = common.run_tlc("ModelLoad", "CONSTANTS NEvents = 0\nINIT Init\nNEXT Next\nINVARIANT EmitCase\nCHECK_DEADLOCK FALSE\n")
+    rc, out = common.run_tlc("ModelLoad", "CONSTANTS NEvents = 0 NInter = %d\nINIT Init\nNEXT Next\nINVARIANT EmitCase\nCHECK_DEADLOCK FALSE\n" % (120 if tier == "quick" else 600))
     if "No error has been found" not in out:
         raise common.MachineryError("ModelLoad.tla generation failed:\n" + out[-2000:])
     gen, distinct = common.tlc_stats(out)
@@ -701,6 +755,10 @@ def check(tier):
                     return [], c
                 res = run_eq(base, b, work, tag)
                 return [{"e": "Eq", "kind": c["kind"], "a": encode(base), "b": encode(b), "res": res if res in ("T", "F") else "raise", "detail": res}], c
+            if c["c"] == "interleaved":
+                r = run_interleaved(zoo_path, c["at"], work, tag)
+                enc_docs = [encode(zoo)]
+                return [{"e": "Load", "docs": enc_docs, "readback": encode(r[w]["rb"]) if r[w]["ok"] else {"k": "null"}, "ok": r[w]["ok"]} for w in ("b", "a") if w in r], c
             if c["c"] == "eqg":
                 edits = [(ctx, d2) for ctx, d2 in grammar_edits(schema, zoo, c["def"], c["key"], c["op"], cap=4 if tier == "quick" else 12) if not schema_invalid(d2)]
                 if not edits:
@@ -747,7 +805,7 @@ def check(tier):
                     descr.append(c)
         tp = os.path.join(work, "trace.json")
         json.dump(events, open(tp, "w"))
-        rc, out2 = common.run_tlc("ModelLoad", "CONSTANTS NEvents = %d\nINIT TInit\nNEXT Step\nPOSTCONDITION AllConsumed\nCHECK_DEADLOCK FALSE\n" % len(events),
+        rc, out2 = common.run_tlc("ModelLoad", "CONSTANTS NEvents = %d NInter = 0\nINIT TInit\nNEXT Step\nPOSTCONDITION AllConsumed\nCHECK_DEADLOCK FALSE\n" % len(events),
                                   env={"MODEL_TRACE": tp, "MODEL_ZOO": zoo_enc}, heap="6g")
         if '"@DONE' not in out2:
             raise common.MachineryError("ModelLoad.tla did not consume the trace:\n" + out2[-2500:])
@@ -765,8 +823,8 @@ def check(tier):
                     sig = {"clause": clause, "kind": ev["kind"], "detail": ev["detail"]}
                     small = {"e": "Eq", "kind": ev["kind"], "res": ev["detail"]}
                 else:
-                    sig = {"clause": clause, "files": c["files"], "case": c["c"]}
-                    small = {"e": "Load", "case": c["c"], "files": c["files"], "ok": ev["ok"]}
+                    sig = {"clause": clause, "files": c.get("files", ""), "case": c["c"]}
+                    small = {"e": "Load", "case": c["c"], "files": c.get("files", ""), "at": c.get("at", 0), "ok": ev["ok"]}
                 rep.violation(sig, small)
     finally:
         shutil.rmtree(work, ignore_errors=True)
